@@ -193,9 +193,9 @@ func (m *heapModel) cmpIndexOperands(fn *ssa.Function) []ssa.Value {
 
 func runC05(c *Ctx) {
 	c.Explanation = "Decides the two structural faults the property's own rationale names — a wrong parent/child index and a missing sift direction — plus heapify coverage and stoppable Each. R-HEAP-INDEX extracts, from the go/ssa form, the parent form P(j)=⌊(j+c)/d⌋ of sift-up and the child forms a·i+b of sift-down and requires P(child_b(i)) = i for every child (arithmetic on the extracted constants). R-HEAP-BIDIR requires that a slot overwritten at an arbitrary offset is re-ordered in both directions on every path. R-HEAPIFY-COVER requires every bulk re-heapify loop to start at or above the last internal node and run down to 0. Does NOT decide that Front/Pop is minimal for every history, multiset conservation, or Sort's result."
-	c.rule("R-HEAP-INDEX", 4, "parent index of sift-up and child indices of sift-down are mutually inverse; children form one contiguous block; root is nobody's child; sift-up stops exactly at the root")
+	c.rule("R-HEAP-INDEX", 3, "parent index of sift-up and child indices of sift-down are mutually inverse; children form one contiguous block; root is nobody's child; sift-up stops exactly at the root")
 	c.rule("R-HEAP-BIDIR", 1, "a slot overwritten at an arbitrary offset is followed by sift-down and (unless sift-down moved it, or the slot was cut off) by sift-up on all paths")
-	c.rule("R-HEAPIFY-COVER", 3, "each bulk heapify loop starts at or above the last internal node, steps -1 down to 0 inclusive, and sifts down the loop variable")
+	c.rule("R-HEAPIFY-COVER", 2, "each bulk heapify loop starts at or above the last internal node, steps -1 down to 0 inclusive, and sifts down the loop variable")
 	c.rule("R-YIELD", 1, "Queue.Each stops calling f once it returned false")
 	c.rule("R-SET-REPLACES", 2, "Set resizes the buffer to len(vs) and copies vs in on every path (contents are what was put in)")
 	m := buildHeapModel(c)
@@ -682,9 +682,9 @@ func runC05(c *Ctx) {
 
 func runC06(c *Ctx) {
 	c.Explanation = "R-MOVE-NOTIFY: every write of a heap slot in a heapq.Queue method (element store, append, copy) is followed on every path to exit by a position report q.move(q.data[k], k) for that very slot, loaded after the write — or the slot is cut off by a truncation before exit. R-ADD-RETURNS: Add returns sift-up's result on the append position. R-POS-WRITERS: the LRU store's key→offset index is written only from the update callback (with the callback's own arguments) and from Store (with Add's result), deleted only together with the heap removal, and the callback is installed before the store escapes. Does NOT decide that the offsets are right for every history (that follows from these rules plus heap-array semantics)."
-	c.rule("R-MOVE-NOTIFY", 6, "every slot write is followed by notify(k) on all paths, or the slot is truncated away")
+	c.rule("R-MOVE-NOTIFY", 3, "every slot write is followed by notify(k) on all paths, or the slot is truncated away")
 	c.rule("R-ADD-RETURNS", 1, "Add returns sift-up's result on the append index")
-	c.rule("R-POS-WRITERS", 5, "lruStore.present has exactly the writers {update callback, Store} and deleters {Remove, Evict}, each correctly paired; access is installed once with a non-nil Update callback")
+	c.rule("R-POS-WRITERS", 4, "lruStore.present has exactly the writers {update callback, Store} and deleters {Remove, Evict}, each correctly paired; access is installed once with a non-nil Update callback")
 	m := buildHeapModel(c)
 	if m == nil {
 		return
@@ -895,7 +895,12 @@ func runC06(c *Ctx) {
 		c.undecided("ANCHOR", "heapq.(*Queue).Add", 0, "not found")
 	}
 
-	// ---- R-POS-WRITERS
+	rulePosWriters(c)
+}
+
+// rulePosWriters: the LRU store's key→offset index (shared by C06 and C08).
+func rulePosWriters(c *Ctx) {
+	P := c.P
 	lru := P.Named("cache", "lruStore")
 	lruFn := P.Func("cache", "", "LRU")
 	presentF := P.Field("cache", "lruStore", "present")
